@@ -34,6 +34,9 @@ ASSUMPTIONS = [
 LEADING = {("center", "left"), ("center", "outer"), ("right", "center"), ("inner", "center")}
 
 
+AXSPELL = ("X", ["X"], ("X",))  # a single axis may be given as str, list or tuple
+
+
 def part_a(rec, li, n, seed, only=None):
     layout = S.LAYOUTS[li]
     for fr, to in S.SHIFTS:
@@ -59,7 +62,7 @@ def part_a(rec, li, n, seed, only=None):
                         kw["to"] = to
                     rec.case(("a", li, n, fr, to, rule, fv, supply, omit), (fr, to) in LEADING or n >= 3, sample=case)
                     try:
-                        r = g.cumsum(da, "X", **kw)
+                        r = g.cumsum(da, AXSPELL[(li + n) % 3], **kw)
                         if not np.array_equal(da.values, base):
                             rec.violation("single-axis", "input-array-modified", case, base, da.values)
                             continue
@@ -67,7 +70,14 @@ def part_a(rec, li, n, seed, only=None):
                         rec.violation("single-axis", "raise:" + exc_sig(e), case, "array", f"{type(e).__name__}: {e}"[:200])
                         continue
                     exp = S.ref_cumsum(base, fr, to, n, rule, fv)
-                    compare(rec, "single-axis", case, r, exp, ("b", S.dimname("X", to)))
+                    if compare(rec, "single-axis", case, r, exp, ("b", S.dimname("X", to))) and supply == "call" and not omit:
+                        try:
+                            r32 = g.cumsum(da.astype(np.float32), "X", **kw)
+                            rec.calls += 1
+                            if r32.dims != r.dims or not np.array_equal(np.asarray(r32.values, dtype=float), exp):
+                                rec.violation("single-axis", "values:float32", dict(case, dtype="float32"), exp, r32.values)
+                        except Exception as e:
+                            rec.violation("single-axis", "raise:float32:" + exc_sig(e), dict(case, dtype="float32"), "array", f"{type(e).__name__}: {e}"[:200])
 
 
 def part_b(rec, si, tier, seed, only=None):
